@@ -8,6 +8,7 @@ import Emmet.Driver.Extract
 import Emmet.Driver.CssAbbr
 import Emmet.Driver.Style
 import Emmet.Driver.ExpandG
+import Emmet.Spec.C06
 
 /-- model driver: `driver <mode>` reads one request per line on stdin and answers one line per request -/
 def main (args : List String) : IO UInt32 := do
@@ -22,4 +23,5 @@ def main (args : List String) : IO UInt32 := do
   | ["cssabbr"] => Drv.CssAbbr.main; return 0
   | ["style"] => Drv.Style.main; return 0
   | ["expandg"] => Drv.ExpandG.main; return 0
+  | ["selfcheck"] => IO.println s!"C06.keyOrderAgrees {EmmetProps.keyOrderAgrees}"; return 0
   | _ => IO.eprintln "usage: driver <mode>"; return 2
